@@ -334,8 +334,14 @@ class Engine:
         if key in self.viol_keys:
             return
         self.viol_keys.add(key)
-        self.violations.append(dict(label=label, kind=kind, inputs=self.inputs_of(st, model), where=where,
+        ins = ""
+        if st.frames:
+            fr = st.frames[-1]
+            ins = str(fr.block.instrs[fr.ip])[:200] if fr.ip < len(fr.block.instrs) else ""
+        self.violations.append(dict(label=label, kind=kind, inputs=self.inputs_of(st, model), where=where, ins=ins,
                                     stack=[f.fn.name for f in st.frames][-8:]))
+        if os.environ.get("VP_PATH_DEBUG"):
+            sys.stderr.write("VIOLATION %s in %s at %s\n" % (label, [f.fn.name for f in st.frames][-5:], ins))
 
     def fail_path(self, st, label, kind):
         """definite error on this (feasible) path: record and end the path"""
@@ -389,7 +395,40 @@ class Engine:
             o.data = data
         else:
             o.data = [0] * size
+            if name.startswith("_ZTT"):
+                # VTT of a libstdc++.so class: every entry leads to the all-zero table
+                fv = list(self.fake_vptr().to_bytes(8, "little"))
+                o.data = fv * (size // 8) + [0] * (size % 8)
+            if name in ("_ZSt4cout", "_ZSt4cerr", "_ZSt4clog", "_ZSt3cin"):
+                o.ro = False
+                o.data[0:8] = list(self.fake_vptr().to_bytes(8, "little"))
+                if size >= 248:
+                    o.data[240:248] = list(self.fake_ctype().to_bytes(8, "little"))
         return base
+
+    def fake_ctype(self):
+        """stand-in for the std::ctype<char> facet of an opaque stream: widen/narrow caches marked valid (identity-ish tables)"""
+        a = self.gaddr.get("$fakectype")
+        if a is None:
+            base = (self.gnext + 63) // 64 * 64
+            self.gnext = base + 1024 + 64
+            o = Obj(base, 1024, "global", "opaque ctype facet", 0, data=[1] * 1024, ro=True)
+            self.gobj[base] = o
+            self.gbases.append(base)
+            a = self.gaddr["$fakectype"] = base
+        return a
+
+    def fake_vptr(self):
+        """address inside an all-zero table: virtual-base offsets read through it are 0 (opaque iostream objects)"""
+        a = self.gaddr.get("$fakevtbl")
+        if a is None:
+            base = (self.gnext + 63) // 64 * 64
+            self.gnext = base + 4096 + 64
+            o = Obj(base, 4096, "global", "opaque iostream vtable", 0, data=[0] * 4096, ro=True)
+            self.gobj[base] = o
+            self.gbases.append(base)
+            a = self.gaddr["$fakevtbl"] = base + 2048
+        return a
 
     def flatten(self, v, ty, out, off):
         t = self.m.resolve(ty)
@@ -596,6 +635,10 @@ class Engine:
         inb = z3.And(z3.UGE(addr, z3.BitVecVal(lo, 64)), z3.ULE(addr, z3.BitVecVal(hi, 64)))
         r, vm = self.check(st, [z3.Not(inb)])
         if r == z3.sat:
+            a1 = vm.eval(addr, model_completion=True).as_long()
+            o1 = self.find_obj(st, a1)
+            if o1 is not None and o1.alive and a1 + n <= o1.base + o1.size:
+                return None     # a pointer selected among several objects: resolved by forking over its values
             self.violation(st, "MEM:read of %d bytes at a symbolic offset can leave %s (size %d)" % (n, o.name, o.size), "MEM", vm)
             st.pc.append(inb)
             st.model = None
@@ -1482,10 +1525,15 @@ def _run_entry(self, name):
                     if self.paths + len(work) + len(fk.alts) > self.max_paths:
                         raise Inconclusive("path limit %d" % self.max_paths)
                     succ = []
-                    for i, (c, fact, model) in enumerate(fk.alts):
+                    for i, alt in enumerate(fk.alts):
+                        c, fact, model = alt[0], alt[1], alt[2]
                         s2 = st.clone() if i < len(fk.alts) - 1 else st
                         s2.pc.append(c)
                         s2.model = model
+                        if len(alt) > 3:
+                            # the forking call completes with this value in the successor (no re-execution)
+                            fr2 = s2.frames[-1]
+                            self.finish_call(s2, fr2.block.instrs[fr2.ip], alt[3])
                         if fact is not None:
                             if fact[0] == "known":
                                 s2.known[fact[1]] = (fact[2], fact[3])
@@ -1494,6 +1542,14 @@ def _run_entry(self, name):
                         succ.append(s2)
                     work.extend(succ[:-1])
                     st = succ[-1]
+        except Inconclusive as e:
+            if st.frames and not getattr(e, "located", False):
+                fr = st.frames[-1]
+                ins = fr.block.instrs[fr.ip] if fr.ip < len(fr.block.instrs) else None
+                e2 = Inconclusive("%s [in %s: %s]" % (e, fr.fn.name, str(ins)[:160]))
+                e2.located = True
+                raise e2
+            raise
         except PathEnd as pe:
             self.paths += 1
             k = pe.why if not pe.why.startswith("error:") else "error"
@@ -1506,8 +1562,28 @@ def _run_entry(self, name):
 Engine.run_entry = _run_entry
 
 
-def run(ll, entry, opaque=(), wall=900, max_steps=3000000, max_paths=20000, replay=None):
+def load_module(ll, support=()):
+    """main module plus support modules (definitions of functions the main module only declares)"""
     mod = llir.parse_file(ll)
+    for sp in support:
+        m2 = llir.parse_file(sp)
+        for n, t in m2.types.items():
+            if mod.types.get(n) is None:
+                mod.types[n] = t
+        for n, g in m2.globals.items():
+            if n in mod.globals and mod.globals[n].init is not None:
+                raise Inconclusive("support module global @%s collides" % n)
+            mod.globals[n] = g
+        for n, f in m2.funcs.items():
+            if f.is_decl:
+                mod.funcs.setdefault(n, f)
+            elif n not in mod.funcs or mod.funcs[n].is_decl:
+                mod.funcs[n] = f
+    return mod
+
+
+def run(ll, entry, opaque=(), wall=900, max_steps=3000000, max_paths=20000, replay=None, support=()):
+    mod = load_module(ll, support)
     eng = Engine(mod, opaque=opaque, wall=wall, max_steps=max_steps, max_paths=max_paths, replay=replay)
     status = "held"
     note = ""
@@ -1532,12 +1608,14 @@ def main():
     ap.add_argument("--max-paths", type=int, default=20000)
     ap.add_argument("--replay", default=None, help="file of concrete inputs: run concretely and print the event trace")
     ap.add_argument("--json", default=None)
+    ap.add_argument("--support", default="", help="comma-separated extra .ll modules")
     a = ap.parse_args()
     opaque = [l.strip() for l in open(a.opaque) if l.strip()] if a.opaque else []
     t0 = time.time()
+    sup = [x for x in a.support.split(",") if x]
     if a.replay:
         # concrete differential mode: one run per replay file (comma separated), module parsed once
-        mod = llir.parse_file(a.ll)
+        mod = load_module(a.ll, sup)
         for rf in a.replay.split(","):
             replay = [int(x) for x in open(rf).read().split()]
             eng = Engine(mod, opaque=opaque, wall=a.wall, max_steps=a.max_steps, max_paths=a.max_paths, replay=replay)
@@ -1549,7 +1627,7 @@ def main():
             except Inconclusive as e:
                 print("INCONCLUSIVE", e)
         return 0
-    eng, status, note = run(a.ll, a.entry, opaque, a.wall, a.max_steps, a.max_paths, None)
+    eng, status, note = run(a.ll, a.entry, opaque, a.wall, a.max_steps, a.max_paths, None, sup)
     out = dict(entry=a.entry, status=status, note=note, paths=eng.paths, path_ends=eng.path_ends, steps=eng.total_steps, queries=eng.queries,
                obligations=eng.obligations, solver_time=round(eng.solver_time, 3), wall=round(time.time() - t0, 3), violations=eng.violations,
                reach=sorted(eng.reach), functions=sorted(eng.funcs_encoded), assumptions=sorted(eng.assumptions))
@@ -1606,6 +1684,29 @@ def m_nondet(eng, st, ins, name, args):
         v = eng.fresh("in_" + kind, bits)
     st.inputs.append((kind, v, bits))
     return v
+
+
+@model("vp_pick")
+def m_pick(eng, st, ins, name, args):
+    """vp_pick(n): a value in [0,n), one path per value (no solver query: every value is feasible by construction)"""
+    n = _conc(eng, st, args[0], "vp_pick bound")
+    if eng.replay is not None:
+        v = eng.replay[eng.replay_pos] if eng.replay_pos < len(eng.replay) else 0
+        eng.replay_pos += 1
+        v &= mask(32)
+        st.inputs.append(("u32", v, 32))
+        if v >= n:
+            st.events.append("VP_ASSUME_FAIL")
+            raise PathEnd("assume")
+        return v
+    if n <= 0:
+        raise PathEnd("assume")
+    var = eng.fresh("in_pick", 32)
+    st.inputs.append(("u32", var, 32))
+    if n == 1:
+        st.pc.append(var == z3.BitVecVal(0, 32))
+        return 0
+    raise Fork([(var == z3.BitVecVal(i, 32), None, None, i) for i in range(n)])
 
 
 @model("vp_assume")
@@ -2105,6 +2206,25 @@ def m_dyncast(eng, st, ins, name, args):
     tn = _tname(eng, _conc(eng, st, ti, "type_info"))
     eng.assumptions.add("dynamic_cast by the static class hierarchy (single inheritance at offset 0)")
     return p if dst in eng.type_bases(tn) else 0
+
+
+# ---- iostream objects constructed by libstdc++.so: an all-zero object whose vptrs lead to an all-zero table (every member function is opaque)
+@model_re(r"^_ZNSt7__cxx1118basic_(i|o)?stringstreamIcSt11char_traitsIcESaIcEEC[12]E|^_ZNSt14basic_(i|o)?fstreamIcSt11char_traitsIcEEC[12]E")
+def m_stream_ctor(eng, st, ins, name, args):
+    eng.assumptions.add("iostream objects are opaque: zero-filled, every libstdc++.so stream member returns an unconstrained value")
+    p = _conc(eng, st, args[0], "stream")
+    o = eng.find_obj(st, p)
+    n = o.base + o.size - p
+    eng.store_bytes(st, p, [0] * n)
+    vp = list(eng.fake_vptr().to_bytes(8, "little"))
+    for off in (0, 16, 128):
+        if off + 8 <= n:
+            eng.store_bytes(st, p + off, vp)
+    ct = list(eng.fake_ctype().to_bytes(8, "little"))
+    for off in (240, 256, 368):
+        if off + 8 <= n:
+            eng.store_bytes(st, p + off, ct)
+    return None
 
 
 # ---- stdio: output is discarded
